@@ -112,7 +112,7 @@ func runSamFam(vec map[string]interface{}) map[string]interface{} {
 				args := []string{"sam", "toMultiAlign", "-s", "@in.sam", "-t", itoa(t)}
 				args = flagInt(flagInt(flagInt(args, "--start", s, -1), "--end", e, -1), "-w", wrap, -1)
 				args = flagBool(args, "--pad", gBool(r, "pad"))
-				for k, v := range cliRun(cliCase{files: map[string][]byte{"in.sam": samData}, args: args, inproc: out.String()}) {
+				for k, v := range cliRun(cliCase{files: map[string][]byte{"in.sam": samData}, args: args, inproc: out.String(), outflag: "-o"}) {
 					res[k] = v
 				}
 			}
@@ -151,7 +151,27 @@ func runSamFam(vec map[string]interface{}) map[string]interface{} {
 				args := []string{"sam", "toPairAlign", "-s", "@in.sam", "-r", "@ref.fa", "-o", "@outdir", "-t", itoa(t)}
 				args = flagInt(flagInt(flagInt(args, "--start", s, -1), "--end", e, -1), "-w", wrap, -1)
 				args = flagBool(flagBool(args, "--omit-reference", gBool(r, "omitref")), "--skip-insertions", gBool(r, "skipins"))
-				for k, v := range cliRun(cliCase{files: map[string][]byte{"in.sam": samData, "ref.fa": refFa}, args: args, outdir: "outdir", inprocD: inprocD}) {
+				wiring := cliRun(cliCase{files: map[string][]byte{"in.sam": samData, "ref.fa": refFa}, args: args, outdir: "outdir", inprocD: inprocD})
+				if same, _ := wiring["cli_same"].(bool); same {
+					// "-o stdout": the pairs one after the other, in the order of the queries in the SAM file
+					var want strings.Builder
+					seen := map[int]bool{}
+					for _, x := range gList(vec, "recs") {
+						q := gInt(gMap(x), "q")
+						if !seen[q] {
+							seen[q] = true
+							want.WriteString(inprocD["q"+itoa(q)+".fasta"])
+						}
+					}
+					a2 := append([]string{}, args...)
+					for i := range a2 {
+						if a2[i] == "@outdir" {
+							a2[i] = "stdout"
+						}
+					}
+					wiring = cliRun(cliCase{files: map[string][]byte{"in.sam": samData, "ref.fa": refFa}, args: a2, inproc: want.String()})
+				}
+				for k, v := range wiring {
 					res[k] = v
 				}
 			}
